@@ -12,42 +12,64 @@
    Pair-verify V1 -> V2 [State=2, PublicKey=accEph(32), EncryptedData = Aead(Hkdf(shared,"Pair-Verify-Encrypt-Salt",
                           "Pair-Verify-Encrypt-Info"), "PV-Msg02", Tlv[Identifier=acc, Signature=Sig(ltsk, accEph | acc | ctrlEph)])]
                V3 -> V4 [State=4]  in PLAINTEXT; everything after it is framed under the Control-Salt keys in both directions
+   A controller may run pair-verify again inside a session: V2 and V4 travel in the session being replaced, everything after V4
+   in the new one.
    Every item appears exactly once in a message. *)
 EXTENDS Naturals, Sequences, FiniteSets, TLC
-CONSTANTS MaxReq, Weak
+CONSTANTS MaxReq, MaxVerify, Weak
 VARIABLES phase,    \* "start" | "M2" | "M4" | "M4err" | "M6" | "V2" | "V4" | "talk"
           code,     \* "right" | "wrong" | "retry" (a wrong code first, then the right one on the same connection)
           stored,   \* the controller's pairing is stored
-          mode,     \* [c2a, a2c] : "plain" | "enc"   what each direction is framed as from now on
-          nreq,
-          last      \* name of the last accessory message and how it was framed
-vars == <<phase, code, stored, mode, nreq, last>>
+          mode,     \* [c2a, a2c] : 0 = plaintext, n = framed under the keys of the n-th pair-verify of this connection:
+                    \* what the ACCESSORY reads / writes with from now on
+          expect,   \* the session under which the CONTROLLER opens the next accessory message (it switches when it has V4)
+          pending,  \* the accessory has answered V4 but not switched its write side yet (only without the guard
+                    \* switch_atomic_with_response)
+          nreq, nver,
+          last      \* the last accessory message: name, the session it was framed under, the session the controller expected
+vars == <<phase, code, stored, mode, expect, pending, nreq, nver, last>>
 Guard(g) == g \notin Weak
 
 Init == /\ phase = "start" /\ code \in {"right", "wrong", "retry"} /\ stored = FALSE
-        /\ mode = [c2a |-> "plain", a2c |-> "plain"] /\ nreq = 0 /\ last = [m |-> "none", framed |-> "plain"]
-Say(m) == last' = [m |-> m, framed |-> mode.a2c]
+        /\ mode = [c2a |-> 0, a2c |-> 0] /\ expect = 0 /\ pending = FALSE /\ nreq = 0 /\ nver = 0
+        /\ last = [m |-> "none", framed |-> 0, expected |-> 0]
+Say(m) == last' = [m |-> m, framed |-> mode.a2c, expected |-> expect]
 
-M1M2 == phase = "start" /\ phase' = "M2" /\ Say("M2") /\ UNCHANGED <<code, stored, mode, nreq>>
+M1M2 == phase = "start" /\ phase' = "M2" /\ Say("M2") /\ UNCHANGED <<code, stored, mode, expect, pending, nreq, nver>>
 M3M4 == /\ phase = "M2"
         /\ IF code = "right" THEN phase' = "M4" /\ Say("M4") ELSE phase' = "M4err" /\ Say("M4err")
-        /\ UNCHANGED <<code, stored, mode, nreq>>
-M5M6 == phase = "M4" /\ phase' = "M6" /\ stored' = TRUE /\ Say("M6") /\ UNCHANGED <<code, mode, nreq>>
-V1V2 == phase = "M6" /\ phase' = "V2" /\ Say("V2") /\ UNCHANGED <<code, stored, mode, nreq>>
-\* the answer to V3 is still plaintext; the switch happens after it has been written
-V3V4 == /\ phase = "V2" /\ phase' = "V4"
-        /\ last' = [m |-> "V4", framed |-> IF Guard("v4_plaintext") THEN "plain" ELSE "enc"]
-        /\ mode' = [c2a |-> "enc", a2c |-> "enc"]
+        /\ UNCHANGED <<code, stored, mode, expect, pending, nreq, nver>>
+M5M6 == phase = "M4" /\ phase' = "M6" /\ stored' = TRUE /\ Say("M6") /\ UNCHANGED <<code, mode, expect, pending, nreq, nver>>
+\* pair-verify: the first one in plaintext after pair-setup, later ones inside the session they replace
+V1V2 == /\ phase \in {"M6", "V4", "talk"} /\ nver < MaxVerify /\ ~pending
+        /\ phase' = "V2" /\ Say("V2") /\ UNCHANGED <<code, stored, mode, expect, pending, nreq, nver>>
+\* The answer to V3 is still written the way the connection wrote before (plaintext, or the session being replaced); the
+\* controller switches when it has it; the accessory reads with the new keys from the answer on and writes with them
+\* right after it - in one step (guard switch_atomic_with_response).  Without the guard the write side follows later
+\* (with the next read): whatever the accessory sends in between is framed the old way.
+V3V4 == /\ phase = "V2" /\ phase' = "V4" /\ nver' = nver + 1
+        /\ last' = [m |-> "V4", framed |-> IF Guard("v4_plaintext") THEN mode.a2c ELSE nver + 1, expected |-> expect]
+        /\ expect' = nver + 1
+        /\ IF Guard("switch_atomic_with_response")
+           THEN mode' = [c2a |-> nver + 1, a2c |-> nver + 1] /\ UNCHANGED pending
+           ELSE mode' = [mode EXCEPT !.c2a = nver + 1] /\ pending' = TRUE
         /\ UNCHANGED <<code, stored, nreq>>
-Talk == /\ phase \in {"V4", "talk"} /\ nreq < MaxReq /\ phase' = "talk" /\ nreq' = nreq + 1
-        /\ Say("resp") /\ UNCHANGED <<code, stored, mode>>
+\* the late switch of the write side: it happens when the next request is read (so before its response)
+Switch == /\ pending /\ pending' = FALSE /\ mode' = [mode EXCEPT !.a2c = mode.c2a]
+          /\ UNCHANGED <<phase, code, stored, expect, nreq, nver, last>>
+Talk == /\ phase \in {"V4", "talk"} /\ nreq < MaxReq /\ ~pending /\ phase' = "talk" /\ nreq' = nreq + 1
+        /\ Say("resp") /\ UNCHANGED <<code, stored, mode, expect, pending, nver>>
+\* the accessory sends something of its own accord (an EVENT for a subscription, a keep-alive): at any time
+Unsolicited == /\ Say("event") /\ UNCHANGED <<phase, code, stored, mode, expect, pending, nreq, nver>>
 \* a failed attempt does not spoil the connection: the user enters the right code and starts again
-Retry == phase = "M4err" /\ code = "retry" /\ phase' = "start" /\ code' = "right" /\ UNCHANGED <<stored, mode, nreq, last>>
-Next == M1M2 \/ M3M4 \/ M5M6 \/ V1V2 \/ V3V4 \/ Talk \/ Retry
+Retry == phase = "M4err" /\ code = "retry" /\ phase' = "start" /\ code' = "right" /\ UNCHANGED <<stored, mode, expect, pending, nreq, nver, last>>
+Next == M1M2 \/ M3M4 \/ M5M6 \/ V1V2 \/ V3V4 \/ Switch \/ Talk \/ Unsolicited \/ Retry
 Spec == Init /\ [][Next]_vars
 
-HandOver == /\ (last.m \in {"M2", "M4", "M4err", "M6", "V2", "V4"} => last.framed = "plain")
-            /\ (last.m = "resp" => last.framed = "enc")
+\* every accessory message is framed the way the controller opens it; pairing messages before the first session are plaintext
+HandOver == /\ last.framed = last.expected
+            /\ (last.m \in {"M2", "M4", "M4err", "M6"} => last.framed = 0)
+            /\ (last.m = "resp" => last.framed > 0)
 StoredOnlyAfterM6 == stored <=> phase \in {"M6", "V2", "V4", "talk"}
 WrongCodeStoresNothing == code \in {"wrong", "retry"} => ~stored /\ phase \in {"start", "M2", "M4err"}
 =======================================================================
